@@ -157,4 +157,30 @@ theorem check_action_inflight_not_repaired :
     d26Witness.status ≠ .running ∧ (Fix.fixChecks d26Witness).actions.any (·.status == .running) = true := by
   decide
 
+/-! ### plan level: `fixPlan` as translated from recovery.go on every run (T6) -/
+
+/-- the translated `fixPlan` is Model/FixPlan.fixPlanFull -/
+theorem translated_fixPlan (exec : Sequence → Sequence × Bool) (now : Nat) (p : Plan) :
+    Generated.T6.fixPlan exec now p = Fix.fixPlanFull exec now p := Translated.fixPlan_eq exec now p
+
+/-- The status the translated `fixPlan` leaves on a Running plan is `fixPlanStatus` of the stored group statuses and
+    the statuses of the repaired blocks — so every `PlanSummary` theorem above (where Recovery goes, the refutation
+    of "deferred checks always run") is a statement about the code as it is now. Hypothesis: no block comes out
+    Stopped (nothing in the engine produces Stopped; with one the plan is Stopped, `translated_fixPlan`). -/
+theorem translated_fixPlan_status (exec : Sequence → Sequence × Bool) (now : Nat) (p : Plan) (hr : p.status = .running)
+    (hs : (Fix.fixBlocksUntilStopped exec now p.blocks).2 = false) :
+    (Generated.T6.fixPlan exec now p).status = fixPlanStatus (Fix.summaryOf exec now p) := by
+  rw [translated_fixPlan]; exact Fix.fixPlan_status_is_summary exec now p hr hs
+
+/-- a plan that is not Running in the store is not touched by the repair -/
+theorem plan_repair_only_running (exec : Sequence → Sequence × Bool) (now : Nat) (p : Plan) (h : p.status ≠ .running) :
+    Generated.T6.fixPlan exec now p = p := by
+  rw [translated_fixPlan]; simp [Fix.fixPlanFull, h]
+
+/-- known findings D21/D21b on the translated code: a Running plan whose first block is durably Failed and whose
+    DeferredChecks never started is routed straight to End (deferred checks never run) -/
+example :
+    let p : Plan := { status := .running, deferred := some { status := .notStarted }, blocks := [{ status := .failed }, { status := .notStarted }] }
+    route (Generated.T6.fixPlan (fun q => (q, false)) 7 p).status = .end_ := by decide
+
 end Coercion.C10
